@@ -9,6 +9,10 @@ CHECKS = {
    technique="bounded exhaustive enumeration (stateless choice-tree explorer E1), complete over order types, against a Python-comparison reference model",
    text="Every (bin type, threshold list of length <=3 incl. duplicates and non-increasing, value order-type incl. NaN and +-inf, scalar/array form) combination is executed on the real Interval.within, util.apply_threshold, util.get_intervals, util.apply_threshold_prob and Contingency._compute_abcd, under 3 monotone embeddings; the documented event is decided by plain Python comparisons and all sites are cross-checked. Within this alphabet the verdict is exhaustive; since only order relations enter the code, the small scope is complete for <=3 thresholds.",
    note="trusts: Python float comparison; that only the order type of a value matters (validated by 3 embeddings); 0-d arrays are not a supported input form"),
+ "C19": dict(level="exploration", design="5/C19",
+   technique="bounded exhaustive enumeration (stateless choice-tree explorer E1): full cross product metric x -x x output type, plus -r/-q/-b/-agg variants, through the real driver",
+   text="Every cell of (70 metrics + 28 diagrams) x (19 -x values + default) x output types (quick: csv/text/plot on one dataset shape; thorough: all 8 types on 4 shapes incl. single time, single location, an all-missing slice) and a variant grid (-r, -q, 8 bin types, 16 aggregators) is executed in-process through verif.driver.run; each outcome is classified ok / SystemExit-with-message / crash, and any crash is a violation keyed by crash site. The grid is the property's own quantifier, so within the generated datasets the verdict is exhaustive.",
+   note="trusts: the generated small datasets are representative of 'well-formed'; plots are written with -f (no interactive window); cartopy backgrounds are not installed"),
 }
 
 def main():
